@@ -354,6 +354,10 @@ func init() {
 				{Name: "counts-ramp-7-holders", Cfg: cfg, Ramp: rampHolders(7), Alphabet: rampAlphabet(7), Depth: 3, Drain: true, DrainFor: 70 * sec},
 				{Name: "counts-ramp-9-waiters", Cfg: cfg, Ramp: rampWaiters(9, true), Alphabet: rampWaitAlphabet(9), Depth: 3, Drain: true, DrainFor: 70 * sec},
 				depthCeilingSpec("counts-depth-ceiling", cfg, 4, true),
+				// small FIFO queues (inline representation) in which a non-head waiter ends before the first
+				// request with another priority arrives and the queue is rebuilt as a priority ring
+				{Name: "counts-ramp-3-waiters-fifo", Cfg: cfg, Ramp: rampWaiters(3, false), Alphabet: rampWaitAlphabet(3), Depth: 3, Drain: true, DrainFor: 70 * sec},
+				{Name: "counts-ramp-6-waiters-fifo", Cfg: cfg, Ramp: rampWaiters(6, false), Alphabet: rampWaitAlphabet(6), Depth: 3, Drain: true, DrainFor: 70 * sec},
 			}, Oracles: []SeqOracle{OracleRef(RefOpts{Counts: true, Prefix: "C17"}), SeqOracleC17}}
 		},
 		rule:        "schedule DFS of the C01/C03/C04 scenarios, each ending in a drain (unlock all, clock advanced past the 8-step re-check ladder and the delayed manager removal); STATE counters are compared with a census of the engine's live structures at three quiescent points; non-trivial = at least two client threads answered",
